@@ -183,9 +183,18 @@ class SharedEnv:
             st.trace = st.trace + (Event('store', (p.region, p.off, size, 'na'), None, {'val': val}),)
 
     # plain MIR loads / stores through a segment pointer
-    def deref_hook(self, ex, st, p):
-        if p.off == self.rec_off:
+    def deref_hook(self, ex, st, p, whole=True):
+        if p.off == self.rec_off and whole:
             return self.read(ex, st, p, self.rec_size, 'na')
+        lay = getattr(ex, 'rec_layout', None)
+        if lay and self.rec_off <= p.off < self.rec_off + self.rec_size:
+            # a plain load of ONE FIELD of the shared record (code that looks into the record it is about to overwrite / has just read):
+            # the record is read as a whole (one event) and the field taken from it
+            for i, f in enumerate(lay['fields']):
+                if f['offset'] == p.off - self.rec_off:
+                    from .values import Ptr as _P
+                    rec = self.read(ex, st, _P(p.region, self.rec_off), self.rec_size, 'na')
+                    return ex.rec_field(rec, i)
         raise EngineError('plain load from the segment at offset %d' % p.off)
 
     def store_hook(self, ex, st, p, path, val):
